@@ -2,6 +2,8 @@ ID = "C13"
 LEVEL = "other"
 CONTRACT_MODULES = ["contracts.sorting", "contracts.refcount", "contracts.tasks", "contracts.tasks_proto"]
 FUNCTIONS = ["Manager.mk_fun", "Manager.find_tasks", "Manager.find_taskids", "toposort"]
+# the generated setter starts from the dependencies of its arguments (C05)
+BORROW = [('C05', ['MutableRef._get_dependencies', 'Ref._get_dependencies'])]
 RAC = "rac/c13.py"
 RAC_BUDGET = {"quick": 60, "thorough": 900}
 RAC_MIN = {"quick": 5387, "thorough": 5387}      # fewer run-time evaluations than this = the harness skipped its work: checker broken, not "held"
